@@ -130,3 +130,35 @@ def step (l : List CP) : Op → List CP
 def run (ops : List Op) (l : List CP) : List CP := ops.foldl step l
 
 end EPV.USet
+
+namespace EPV.USet
+
+/-- the merging loop of `codepoints.iter_code_points` over the already sorted list;
+`cur = none` is the Python state `end_cp == 0` ("nothing pending") -/
+def icpLoop (reverse : Bool) : Option (Nat × Nat) → List CP → List CP
+  | none, [] => []
+  | some (s, e), [] => [if e > s + 1 then .rng s e else .one s]
+  | none, c :: rest => icpLoop reverse (some (c.lo, c.hi)) rest
+  | some (s, e), c :: rest =>
+    if reverse then
+      if s ≤ c.hi then icpLoop reverse (some (if s > c.lo then c.lo else s, e)) rest
+      else (if e > s + 1 then .rng s e else .one s) :: icpLoop reverse (some (c.lo, c.hi)) rest
+    else
+      if e ≥ c.lo then icpLoop reverse (some (s, if e < c.hi then c.hi else e)) rest
+      else (if e > s + 1 then .rng s e else .one s) :: icpLoop reverse (some (c.lo, c.hi)) rest
+
+/-- `iter_code_points(codepoints, reverse)`: stable sort by `code_point_order` (ascending) or by
+`code_point_reverse_order` descending, then merge.  NB: the Python uses `end_cp == 0` as the
+"nothing pending" flag; an entry with `hi = 0` cannot occur (entries are non-empty). -/
+def iterCodePoints (reverse : Bool) (l : List CP) : List CP :=
+  let sorted := if reverse then l.mergeSort (fun a b => decide (a.hi ≥ b.hi))
+                else l.mergeSort (fun a b => decide (a.lo ≤ b.lo))
+  icpLoop reverse none sorted
+
+/-- `update(iterable)`: `for cp in iter_code_points(value, reverse=True): self.add(cp)` -/
+def update (l o : List CP) : List CP := (iterCodePoints true o).foldl (fun acc v => add v acc) l
+/-- `difference_update(iterable)` -/
+def differenceUpdate (l o : List CP) : List CP :=
+  (iterCodePoints true o).foldl (fun acc v => discard v acc) l
+
+end EPV.USet
